@@ -100,11 +100,18 @@ fn reference(input: &[KV], agg: Agg) -> Vec<Vec<i64>> {
 /// (key, value) pairs assigned to source replicas; optionally timestamped (ts = index) and
 /// optionally run inside a 2-round replay (the aggregate of the body is what we look at).
 fn scenario(agg: Agg, input: Vec<KV>, assign: Vec<usize>, p: u64, ts: bool, in_loop: bool, bound: usize) -> Scenario {
-    let name = format!("C07/{:?}/in{:?}/on{:?}/p{p}/ts{ts}/loop{in_loop}", agg, input, assign).replace(' ', "");
-    let descr = format!("{:?} of (key, value) pairs {:?} placed on source replicas {:?} of {p}, timestamped {ts}, inside a 2-round replay {in_loop}", agg, input, assign);
+    scenario_on(agg, input, assign, Layout::Local(p), ts, in_loop, bound)
+}
+
+fn scenario_on(agg: Agg, input: Vec<KV>, assign: Vec<usize>, layout: Layout, ts: bool, in_loop: bool, bound: usize) -> Scenario {
+    let p = layout.total_cores();
+    let lname = if layout.hosts() == 1 { format!("p{p}") } else { layout.name() };
+    let name = format!("C07/{:?}/in{:?}/on{:?}/{lname}/ts{ts}/loop{in_loop}", agg, input, assign).replace(' ', "");
+    let descr = format!("{:?} of (key, value) pairs {:?} placed on source replicas {:?} of {p} (layout {}), timestamped {ts}, inside a 2-round replay {in_loop}", agg, input, assign, layout.name());
     let (input2, assign2) = (input.clone(), assign.clone());
     let body: crate::rt::Body = Arc::new(move || {
-        let env = Layout::Local(p).env(0);
+      let (input2, assign2) = (input2.clone(), assign2.clone());
+      let res = crate::kit::run_hosts(&layout, Arc::new(move |host, env| {
         let mut scripts: Vec<Vec<StreamElement<KV>>> = vec![vec![]; p as usize];
         for (i, x) in input2.iter().enumerate() {
             scripts[assign2[i] % p as usize].push(if ts { StreamElement::Timestamped(*x, i as i64) } else { StreamElement::Item(*x) });
@@ -122,12 +129,18 @@ fn scenario(agg: Agg, input: Vec<KV>, assign: Vec<usize>, p: u64, ts: bool, in_l
                 )
                 .collect_vec();
             env.execute_blocking();
-            log_sink("state", 0, out.get());
+            log_sink("state", host, out.get());
         } else {
             let out = probe(apply(s, agg), 7).collect_vec();
             env.execute_blocking();
-            log_sink("sink0", 0, out.get());
+            log_sink("sink0", host, out.get());
         }
+      }));
+      for (h, r) in res.into_iter().enumerate() {
+          if let Some(p) = r {
+              crate::rt::log(Ev::Text("host-panic", format!("{h}: {p}")));
+          }
+      }
     });
     let exp = reference(&input, agg);
     let max_ts: BTreeMap<i64, i64> = {
@@ -143,6 +156,11 @@ fn scenario(agg: Agg, input: Vec<KV>, assign: Vec<usize>, p: u64, ts: bool, in_l
     let check: Check = Arc::new(move |r| {
         if r.status != Status::Done {
             return Err(Fail::new(format!("c07-{:?}-abnormal", agg), format!("{d2}: {:?}", r.status)));
+        }
+        for e in &r.log {
+            if let Ev::Text("host-panic", t) = e {
+                return Err(Fail::new(format!("c07-{:?}-panic", agg), format!("{d2}: {t}")));
+            }
         }
         // results per iteration as seen by the probe right after the aggregation (all replicas)
         let mut iters: BTreeMap<(u64, u64, u64), Vec<Vec<(Vec<i64>, Option<i64>)>>> = BTreeMap::new();
@@ -252,6 +270,20 @@ fn build(tier: Tier) -> Vec<Scenario> {
                     }
                 }
             }
+        }
+        // two hosts: the two phases of the associative forms and the key partitioning cross the
+        // (virtual) network
+        for layout in [Layout::Remote(vec![1, 1]), Layout::Remote(vec![2, 1])] {
+            if tier == Tier::Quick && layout.total_cores() == 3 && !matches!(agg, Agg::GroupByFold | Agg::FoldAssoc | Agg::GroupByAvg) {
+                continue;
+            }
+            let cores = layout.total_cores() as usize;
+            for input in [vec![(0i64, 1i64), (0, 2), (1, 4), (1, 8), (2, 16)], vec![(0, 1), (0, 2), (0, 64)]] {
+                for a in [(0..input.len()).map(|i| i % cores).collect::<Vec<_>>(), vec![cores - 1; input.len()]] {
+                    out.push(scenario_on(agg, input.clone(), a, layout.clone(), true, false, if tier == Tier::Quick { 0 } else { 1 }));
+                }
+            }
+            out.push(scenario_on(agg, vec![(0, 1), (1, 4), (0, 2)], vec![0, 1, 0], layout.clone(), false, true, 0));
         }
         // repeated iterations of the same aggregation
         for input in [vec![(0i64, 1i64), (1, 4), (0, 2)], vec![]] {
